@@ -178,6 +178,8 @@ func (e *Engine) execInstr(st *State, b *ssa.BasicBlock, idx int, in ssa.Instruc
 			} else {
 				fr.regs[x] = e.freshOf(st, "recv", x.Type())
 			}
+			e.runAts(st, in, false)
+			e.runAts(st, in, true)
 		default:
 			limitf("unop %s", x.Op)
 		}
@@ -416,7 +418,9 @@ func (e *Engine) execInstr(st *State, b *ssa.BasicBlock, idx int, in ssa.Instruc
 		return e.runDefers(st, b, idx)
 	case *ssa.Send:
 		e.noteAssumption("channel sends have no modelled effect")
-		return true
+		e.runAts(st, in, false)
+		e.runAts(st, in, true)
+		return !st.dead
 	case *ssa.Select:
 		return e.execSelect(st, b, idx, x)
 	case *ssa.Jump:
